@@ -583,8 +583,10 @@ func (a *cdcAnyIndex) content() []string {
 	return cdcRenderVec(a.vec)
 }
 
-// pendingDeletes reports whether soft-deleted entries are waiting for a flush and,
-// for HNSW, whether the entry point is among them.
+// pendingDeletes reports whether soft-deleted entries are waiting for a flush and whether
+// some of them are vertices of an HNSW graph (second result; since fix f6a780e tombstoned
+// vertices are walked through by searches until the Flush inside WriteTo drops them and
+// their edges without reconnecting the neighbours: known finding D21).
 func (a *cdcAnyIndex) pendingDeletes() (pending bool, entryDeleted bool) {
 	check := func(v comet.VectorIndex) {
 		switch x := v.(type) {
@@ -596,9 +598,8 @@ func (a *cdcAnyIndex) pendingDeletes() (pending bool, entryDeleted bool) {
 			for _, n := range nodes {
 				if n.Deleted {
 					pending = true
-					if n.ID == entry {
-						entryDeleted = true
-					}
+					entryDeleted = true // any tombstoned HNSW vertex (the entry point is no longer special)
+					_ = entry
 				}
 			}
 		case *comet.IVFIndex:
